@@ -319,4 +319,28 @@ def concatMapChunks (cfg : Cfg) (n : Nat) : List KVs → Except Err KVs :=
 def concatMsgChunks (cfg : Cfg) (n : Nat) : List (Option Msg) → Except Err (Option Msg) :=
   concatStream (fun cs => (concatMsgPtrs cfg n cs).map some)
 
+/-! ## `[]*Message` chunks -/
+
+/-- one position of `concatMessageArray`: the non-nil messages found at that position, in
+    chunk order: none → nil, one → that message untouched, more → `ConcatMessages` -/
+def concatCol (cfg : Cfg) (n : Nat) (col : List (Option Msg)) : Except Err (Option Msg) :=
+  match col.filterMap id with
+  | [] => .ok none
+  | [m] => .ok (some m)
+  | ms => (concatMsgs cfg n ms).map some
+
+/-- schema/message.go `concatMessageArray` (registered for `[]*Message` chunks): all arrays
+    must have the length of the first one (`mas[0]` is the modelled panic site), then
+    position-wise. -/
+def concatArr (cfg : Cfg) (n : Nat) (mas : List (List (Option Msg))) : Except Err (List (Option Msg)) :=
+  match mas with
+  | [] => .error .panic
+  | a0 :: _ =>
+    if mas.all (fun a => a.length == a0.length) then
+      (List.range a0.length).mapM (fun i => concatCol cfg n (mas.map (fun a => a.getD i none)))
+    else .error .fail
+
+def concatArrChunks (cfg : Cfg) (n : Nat) : List (List (Option Msg)) → Except Err (List (Option Msg)) :=
+  concatStream (concatArr cfg n)
+
 end EinoV.C14
